@@ -346,7 +346,10 @@ const UNKNOWN_PROPS: [(&str, &str); 8] = [
     ("transition", "all .2s ease-in-out"),
 ];
 
-pub const JUNK_RULESETS: [&str; 8] = [
+pub const JUNK_RULESETS: [&str; 11] = [
+    "q:not(;) { color: red }",
+    "q[title=a;b] { color: red }",
+    "q(;;)[;] > r { display: none }",
     "a:hover { color: red; }",
     "div::first-line { color: blue }",
     "p[lang=en] { color: red; }",
@@ -357,7 +360,10 @@ pub const JUNK_RULESETS: [&str; 8] = [
     "{ color: red }",
 ];
 
-const JUNK_RULES: [&str; 8] = [
+const JUNK_RULES: [&str; 11] = [
+    "@import url(data:text/css;base64,LnggeyBjb2xvcjogcmVkIH0=);",
+    "@supports (display: grid;) { div { display: grid } }",
+    "@foo [a;b] (c;d);",
     "@media screen and (max-width: 600px) { .zz { color: red; } }",
     "@import url(\"foo.css\");",
     "@font-face { font-family: \"X\"; src: url(x.woff) }",
